@@ -948,6 +948,7 @@ class Env:
         self._site_counts: dict = {}
         # side solver holding only the path-condition conjuncts over small (index-like) inputs;
         # used to simplify write-log reads (sound: it is weaker than the path condition)
+        self._decided: dict = {}
         self.small_vars: set = set()
         self.index_solver = z3.Solver()
         self.index_n = 0
@@ -1117,6 +1118,16 @@ class Env:
             return False
         if self.site_bounds:
             self._site_check()
+        cid = c.get_id()
+        hit = self._decided.get(cid)
+        if hit is not None:
+            # the same condition (structurally) was decided earlier on this path
+            return hit[0]
+        v = self._decide(c)
+        self._decided[cid] = (v, c)
+        return v
+
+    def _decide(self, c) -> bool:
         if self.pos < len(self.prefix):
             kind, v = self.prefix[self.pos]
             if kind != "b":
@@ -1130,6 +1141,8 @@ class Env:
         other = z3.Not(c) if v else c
         r = self._check(other)
         if r == z3.unknown:
+            if self.engine.cut_on_undecided:
+                raise PathCut("feasibility of a branch undecided within the solver timeout")
             raise SolverUnknown("decide: " + self.solver.reason_unknown())
         self.pos += 1
         if r == z3.sat:
@@ -1399,6 +1412,7 @@ class Engine:
     def __init__(self, timeout_ms: int = 30000, max_paths: int = 200000, want_models: int = 1, incremental_timeout_ms: int = 1500):
         self.timeout_ms = timeout_ms
         self.incremental_timeout_ms = incremental_timeout_ms
+        self.cut_on_undecided = False
         self.max_paths = max_paths
         self.want_models = want_models  # export a model for every k-th completed path (0 = never)
         self.solver = None
